@@ -7,8 +7,8 @@
 package seqmc
 
 import (
-	"os"
 	"fmt"
+	"os"
 	"runtime"
 	"runtime/debug"
 	"sort"
